@@ -561,5 +561,21 @@ seed("c16-stuffed-dot-bol", "C16", "R-dot-table", "data.go",
 			r.state = stateBeginLine
 		case stateDotCR:""", "after the stuffing dot the line start state is kept")
 
+seed("c17-client-keeps-prefix", "C17", "R-client-parse", "client.go",
+"""	smtpErr.EnhancedCode = enchCode
+	smtpErr.Message = msg
+	return smtpErr""", """	smtpErr.EnhancedCode = enchCode
+	return smtpErr""", "client message keeps the enhanced code prefix")
+seed("c17-data-generic-550", "C17", "R-data-generic", "conn.go",
+"""			return 554, EnhancedCode{5, 0, 0}, "Error: transaction failed: " + err.Error()""", """			return 550, EnhancedCode{5, 0, 0}, "Error: transaction failed: " + err.Error()""", "generic data error code changed")
+seed("c17-data-generic-text", "C17", "R-data-generic", "conn.go",
+"""			return 554, EnhancedCode{5, 0, 0}, "Error: transaction failed: " + err.Error()""", """			return 554, EnhancedCode{5, 0, 0}, "Error: transaction failed" """, "generic data error text lost")
+seed("c09-auth-advertised-insecure", "C09", "R-auth-gate", "conn.go",
+"""	if c.authAllowed() {
+		mechs := c.authMechanisms()
+""", """	if true {
+		mechs := c.authMechanisms()
+""", "AUTH advertised in plaintext")
+
 json.dump(S, open(os.path.join(os.path.dirname(os.path.abspath(__file__)), "bank.json"), "w"), indent=1)
 print(len(S), "seeds")
